@@ -31,10 +31,23 @@ ERRKIND = {b'division by zero': 1, b'invalid dice syntax, try e.g. `4d6`': 10}
 # ---------------------------------------------------------------- expressions
 # ('d', n, m, short) | ('c', n) | ('neg', a) | (op, a, b) with op in add sub mul div
 
+BASES = [('0b', 2), ('0o', 8)] + [('%d#' % k, k) for k in range(2, 11)]
+
+def to_base(n, b):
+    if n == 0:
+        return '0'
+    ds = []
+    while n:
+        ds.append(str(n % b)); n //= b
+    return ''.join(reversed(ds))
+
 def text(e):
     t = e[0]
     if t == 'd':
-        return ('d%d' % e[2]) if (e[3] and e[1] == 1) else '%dd%d' % (e[1], e[2])
+        # a dice literal is lexed in the base of its prefix (bases <= 10 only): count and faces are digits of that base
+        pre, b = e[4] if len(e) > 4 and e[4] else ('', 10)
+        n, m = to_base(e[1], b), to_base(e[2], b)
+        return pre + (('d' + m) if (e[3] and e[1] == 1) else n + 'd' + m)
     if t == 'c':
         return str(e[1])
     if t == 'neg':
@@ -101,6 +114,9 @@ def spec(e, pairs_max):
         return out
     return go(e)
 
+# constants around and beyond f64 / u64 resolution
+BIG = [2 ** 53, 2 ** 53 + 1, 2 ** 53 + 2, 2 ** 63, 2 ** 64 - 1, 2 ** 64, 2 ** 64 + 1, 10 ** 18, 10 ** 20, 10 ** 20 + 1, 3 * 10 ** 30 + 7]
+
 DIE_FACES = [2, 2, 3, 4, 4, 6, 6, 6, 8, 10, 12, 20, 5, 7, 1, 32, 100]
 
 def gen_expr(r, depth, thorough):
@@ -111,7 +127,9 @@ def gen_expr(r, depth, thorough):
             m = r.choice(DIE_FACES)
             if n * m > (60 if not thorough else 120):
                 m = r.choice([2, 3, 4, 6])
-            return ('d', n, m, r.random() < 0.6)
+            return ('d', n, m, r.random() < 0.6, r.choice(BASES) if r.random() < 0.25 else None)
+        if r.random() < 0.2:
+            return ('c', r.choice(BIG))
         return ('c', r.choice([0, 1, 1, 2, 2, 3, 4, 5, 6, 7, 10, 12, 100, 3, 2]))
     if k < 0.30:
         return ('neg', gen_expr(r, depth - 1, thorough))
@@ -141,6 +159,21 @@ FIXED = [
     ('d', 0, 6, False), ('d', 1, 0, False), ('d', 0, 0, False), ('d', 1, 4294967296, True), ('d', 4294967296, 2, False),
     ('add', ('d', 1, 6, True), ('d', 0, 6, False)), ('div', ('d', 1, 0, True), ('c', 0)),
     ('mul', ('d', 1, 32, True), ('d', 1, 32, True)), ('mul', ('d', 1, 100, True), ('c', 100)),
+    # dice literals under a base prefix: count and faces are digits of that base
+    ('d', 2, 8, False, ('0o', 8)), ('d', 1, 2, False, ('0b', 2)), ('d', 1, 2, True, ('0b', 2)), ('d', 2, 6, False, ('6#', 6)),
+    ('d', 2, 3, False, ('0b', 2)), ('d', 1, 9, True, ('9#', 9)), ('d', 2, 6, False, ('10#', 10)), ('d', 15, 2, False, ('0o', 8)),
+    ('d', 1, 3, True, ('3#', 3)), ('d', 3, 5, False, ('2#', 2)), ('d', 1, 64, True, ('0o', 8)), ('d', 9, 9, False, ('0o', 8)),
+    ('d', 4, 16, False, ('4#', 4)), ('d', 1, 100, True, ('7#', 7)),
+    ('add', ('d', 2, 8, False, ('0o', 8)), ('d', 1, 3, False, ('0b', 2))), ('sub', ('d', 1, 6, True), ('d', 2, 6, False, ('6#', 6))),
+    ('d', 0, 8, False, ('0o', 8)), ('d', 1, 0, True, ('0b', 2)), ('d', 4294967296, 2, False, ('0o', 8)), ('d', 1, 4294967296, True, ('3#', 3)),
+    # outcomes that differ only below f64 resolution, or beyond u64: order and exact values
+    ('sub', ('c', 10 ** 20), ('d', 1, 6, True)), ('sub', ('c', 2 ** 53 + 2), ('d', 1, 3, True)),
+    ('sub', ('mul', ('d', 1, 2, True), ('c', 10 ** 18)), ('d', 1, 2, True)), ('add', ('d', 1, 6, True), ('c', 2 ** 64)),
+    ('mul', ('d', 1, 6, True), ('c', 2 ** 53 + 1)), ('sub', ('c', 2 ** 64), ('d', 1, 20, True)), ('sub', ('c', 2 ** 53), ('d', 2, 6, False)),
+    ('div', ('add', ('c', 10 ** 20), ('d', 1, 6, True)), ('c', 3)), ('div', ('sub', ('mul', ('d', 1, 2, True), ('c', 10 ** 18)), ('d', 1, 2, True)), ('c', 7)),
+    ('neg', ('add', ('c', 2 ** 53), ('d', 1, 4, True))), ('sub', ('d', 1, 4, True), ('c', 10 ** 20)),
+    ('sub', ('mul', ('c', 2 ** 53 + 1), ('d', 1, 3, True)), ('d', 1, 3, True)), ('div', ('sub', ('c', 2 ** 64 + 1), ('d', 1, 4, True)), ('c', 2 ** 64)),
+    ('add', ('sub', ('c', 2 ** 53), ('d', 1, 6, True)), ('div', ('d', 1, 2, True), ('c', 2))),
 ]
 
 def gen_cases(c):
@@ -153,6 +186,8 @@ def gen_cases(c):
             cases.append((('d', n, m, False), 'die'))
             if n == 1:
                 cases.append((('d', 1, m, True), 'die'))
+            if thorough or r.random() < 0.5:
+                cases.append((('d', n, m, n == 1 and r.random() < 0.5, r.choice(BASES)), 'die-base'))
     for e in FIXED:
         cases.append((e, 'fixed'))
     want = 2500 if thorough else 260
@@ -180,7 +215,7 @@ def gen_cases(c):
     return cases, pairs_max
 
 # malformed / unusual spellings: only "no crash" and, where the meaning is plain, the value
-ODD = ['d', '2d', 'd6d6', '2d6d6', '1.5d6', 'd6.5', '--d6', 'd6^2', '(d6)^2', 'd6!', 'd-6', 'D6', '2D6', 'd 6', '0x2d6',
+ODD = ['0o2d8', '0b2d10', '0b1d2', '0x1d6', '16#2d6', '11#d6', '0od8', '1#d1', '0b1.1d10', 'd', '2d', 'd6d6', '2d6d6', '1.5d6', 'd6.5', '--d6', 'd6^2', '(d6)^2', 'd6!', 'd-6', 'D6', '2D6', 'd 6', '0x2d6',
        'roll', 'mean', 'roll d6 d6', 'mean()', 'roll()', 'd6 d6', '2 d6', 'd6 to %', 'd6 kg', 'sqrt d4', 'd6 mod 2',
        '2d6 == 2d6', 'roll(roll(d6))', 'mean(mean(d6))', 'mean(roll(2d6))', 'roll(mean(2d6))', 'd6 + "a"', '1e2d6', 'd1e2']
 
@@ -221,15 +256,31 @@ def weight(f):
     w = int(f * 4294967295.0)
     return min(w, M32)
 
+NUM_RE = re.compile(r'^(-?)(0b|0o|(\d+)#)?([0-9]+)(?:\.([0-9]+))?$')
+
+def parse_outcome(txt):
+    """printed number -> (exact value of the printed digits, base, has fractional part); fend prints a number in the base
+    of the literal it came from, with that literal's prefix"""
+    m = NUM_RE.match(txt)
+    if not m:
+        return None
+    b = 10 if not m.group(2) else 2 if m.group(2) == '0b' else 8 if m.group(2) == '0o' else int(m.group(3))
+    if b < 2 or b > 10 or any(int(ch) >= b for ch in m.group(4) + (m.group(5) or '')):
+        return None
+    v = F(int(m.group(4), b))
+    if m.group(5):
+        v += F(int(m.group(5), b), b ** len(m.group(5)))
+    return (-v if m.group(1) else v), b, bool(m.group(5))
+
 def fmt_outcome_ok(txt, k):
-    """printed outcome against the exact one: integers exactly, others to 1e-9"""
-    try:
-        v = F(txt)
-    except Exception:
+    """printed outcome against the exact one: integers digit for digit (in the printed base), others to 10 places"""
+    p = parse_outcome(txt)
+    if p is None:
         return False
+    v, b, frac = p
     if k.denominator == 1:
-        return txt == str(k.numerator)
-    return abs(v - k) <= F(1, 10 ** 9) * max(1, abs(k))
+        return (not frac) and v == k
+    return abs(v - k) <= F(1, b ** 9)
 
 LIST_RE = re.compile(r'^\{ (.*) \}$')
 
@@ -308,7 +359,7 @@ def check(c):
     impl_mean = c.impl('dist', [sx([Sym('parts'), 'mean(%s)' % t]) for t in texts], timeout=tmo)
     impl_show = c.impl('dist', [sx([Sym('eval'), t, [], 0]) for t in texts], timeout=tmo)
     impl_showmean = c.impl('dist', [sx([Sym('eval'), 'mean(%s)' % t, [], 0]) for t in texts], timeout=tmo)
-    heavy = [i for i, (e, kind) in enumerate(cases) if kind == 'die' and e[1] * e[2] > 40]
+    heavy = [i for i, (e, kind) in enumerate(cases) if kind in ('die', 'die-base') and e[1] * e[2] > 40]
     light = [i for i in range(len(cases)) if i not in set(heavy)]
     model_dist = [None] * len(cases)
     for idx, cross in ((light, True), (heavy, False)):
@@ -406,8 +457,8 @@ def check(c):
                 if '/' in num or ' ' in num:
                     good = True          # mixed-fraction spellings belong to number formatting (C03); value checked at L1
                 else:
-                    v = F(num)
-                    good = (v == mean_spec) if not txt.startswith('approx. ') else abs(v - mean_spec) <= F(1, 10 ** 9) * max(1, abs(mean_spec))
+                    v, b, _ = parse_outcome(num)
+                    good = (v == mean_spec) if not txt.startswith('approx. ') else abs(v - mean_spec) <= F(1, b ** 9)
             except Exception:
                 good = False
             if not good:
@@ -427,6 +478,9 @@ def check(c):
             if lst is None or len(lst) != len(exp):
                 c.violation('listing-shape', dict(rep, kind='impl-vs-spec', impl=impl_show[i], expected_len=len(exp)))
             else:
+                pv = [parse_outcome(ktxt) for ktxt, _ in lst]
+                if all(x is not None for x in pv) and any(not (a[0] < b[0] or (a[0] == b[0] and (a[2] or b[2]))) for a, b in zip(pv, pv[1:])):
+                    c.violation('listing-not-ascending', dict(rep, kind='impl-vs-spec', impl=impl_show[i][:1500]))
                 for (ktxt, h), (k, p) in zip(lst, exp):
                     cands, tie = pct_candidates(p)
                     ties_seen += tie
